@@ -249,7 +249,11 @@ def m_iter_adapt(I, fr, callee, m, args):
     op = m.group(2) or m.group(4)
     it = args[0]
     if not isinstance(it, IterV):
-        return NotImplemented
+        ty = m.group(1) or m.group(3)
+        if isinstance(it, Agg) and (it.ty, 'next') in I.prog.methods:
+            it = IterV('custom', ty=ty, state=it)      # a crate type implementing Iterator
+        else:
+            return NotImplemented
     if op in ('enumerate',):
         return IterV('enumerate', inner=it, k=0)
     if op == 'rev':
@@ -920,3 +924,105 @@ def m_entry(I, fr, callee, m, args):
             I.store_ref(mref, MapV(mv.kind, mv.entries + ((e.f[1], args[1]),)))
             return Ref(mref.cell, mref.path + (('ent', len(mv.entries)),))
     raise Unsupported("entry op %s on %s" % (op, e.ty))
+
+
+# ------------------------------------------------------------------ more slice / Vec API (kept small and exact)
+from .models import subslice, check_bounds_or_panic, band   # noqa: E402
+
+
+@model(r'^(?:core|std)::slice::<impl \[.*\]>::(split_at|split_at_mut|split_first|split_last|starts_with|ends_with|contains|swap|fill)(?:::<.*>)?$')
+def m_slice_more(I, fr, callee, m, args):
+    op = m.group(1)
+    s = as_slice(I, args[0])
+    if op in ('split_at', 'split_at_mut'):
+        mid = args[1]
+        check_bounds_or_panic(I, ule(mid, s.len), 'split_at: mid > len')
+        return Agg('tuple', (subslice(I, s, usize(0), mid), subslice(I, s, mid, s.len)))
+    if op in ('split_first', 'split_last'):
+        if I.ctx.branch(I.binop('Eq', s.len, usize(0))):
+            return NONE
+        n1 = I.binop('Sub', s.len, usize(1))
+        if op == 'split_first':
+            first = Ref(s.base.cell, s.base.path + (('i', s.start),))
+            return Some(Agg('tuple', (first, subslice(I, s, usize(1), s.len))))
+        last = Ref(s.base.cell, s.base.path + (('i', I.binop('Add', s.start, n1)),))
+        return Some(Agg('tuple', (last, subslice(I, s, usize(0), n1))))
+    if op in ('starts_with', 'ends_with'):
+        o = as_slice(I, args[1])
+        if not I.ctx.branch(ule(o.len, s.len)):
+            return FALSE
+        part = subslice(I, s, usize(0), o.len) if op == 'starts_with' else subslice(I, s, I.binop('Sub', s.len, o.len), s.len)
+        return sc_from(I.seq_eq(part, o), 'bool')
+    if op == 'contains':
+        xs = I.seq_list(s)
+        needle = deref_val(I, args[1])
+        return sc_from(z3.Or([z3.BoolVal(False)] + [eq_dispatch(I, x, needle) for x in xs]), 'bool')
+    if op == 'swap':
+        c = I.load_ref(s.base)
+        items = list(I.container_items(c))
+        st = I.ctx.concretize(s.start)
+        a, b = I.ctx.concretize(args[1]), I.ctx.concretize(args[2])
+        n = I.ctx.concretize(s.len)
+        if a >= n or b >= n:
+            raise PathEnd('panic', 'swap index out of bounds')
+        items[st + a], items[st + b] = items[st + b], items[st + a]
+        I.store_ref(s.base, I.with_items(c, items))
+        return UNIT
+    if op == 'fill':
+        c = I.load_ref(s.base)
+        items = list(I.container_items(c))
+        st, n = I.ctx.concretize(s.start), I.ctx.concretize(s.len)
+        for k in range(n):
+            items[st + k] = args[1]
+        I.store_ref(s.base, I.with_items(c, items))
+        return UNIT
+    raise Unsupported(op)
+
+
+@model(r'^Vec::<.*>::(swap_remove|insert|retain|resize|split_off|drain|first|last|is_empty|capacity|reserve|shrink_to_fit|into_boxed_slice|iter|dedup_by_key)(?:::<.*>)?$')
+def m_vec_more(I, fr, callee, m, args):
+    op = m.group(1)
+    v = I.load_ref(args[0]) if isinstance(args[0], Ref) else args[0]
+    if op == 'swap_remove':
+        k = I.ctx.concretize(args[1], limit=len(v.items) + 2)
+        if k >= len(v.items):
+            raise PathEnd('panic', 'swap_remove index out of bounds')
+        items = list(v.items)
+        x = items[k]
+        items[k] = items[-1]
+        items.pop()
+        I.store_ref(args[0], VecV(items, v.is_string))
+        return x
+    if op == 'insert':
+        k = I.ctx.concretize(args[1], limit=len(v.items) + 2)
+        if k > len(v.items):
+            raise PathEnd('panic', 'insert index out of bounds')
+        items = list(v.items)
+        items.insert(k, args[2])
+        I.store_ref(args[0], VecV(items, v.is_string))
+        return UNIT
+    if op == 'retain':
+        keep = []
+        for x in v.items:
+            if I.ctx.branch(I.call_closure(args[1], [I.new_ref(x, 'ret')])):
+                keep.append(x)
+        I.store_ref(args[0], VecV(keep, v.is_string))
+        return UNIT
+    if op == 'resize':
+        n = I.ctx.concretize(args[1], limit=70000)
+        items = list(v.items[:n]) + [args[2]] * max(0, n - len(v.items))
+        I.store_ref(args[0], VecV(items, v.is_string))
+        return UNIT
+    if op == 'split_off':
+        k = I.ctx.concretize(args[1], limit=len(v.items) + 2)
+        if k > len(v.items):
+            raise PathEnd('panic', 'split_off out of bounds')
+        I.store_ref(args[0], VecV(v.items[:k], v.is_string))
+        return VecV(v.items[k:], v.is_string)
+    if op in ('capacity',):
+        return usize(len(v.items))
+    if op in ('reserve', 'shrink_to_fit'):
+        return UNIT
+    if op == 'into_boxed_slice':
+        return v
+    return NotImplemented
